@@ -64,6 +64,13 @@ pub struct Shared {
     pub last_write_accepted: usize,
     /// fds the library offered room for
     pub last_fd_room: usize,
+    /// volume mode: accepted bytes are not stored but compared on the fly with this repeating
+    /// expectation (gigabytes through one connection)
+    pub verify: Option<Rc<Vec<u8>>>,
+    pub verify_pos: usize,
+    pub verify_total: u64,
+    /// total offset of the first byte that differed
+    pub verify_bad: Option<u64>,
 }
 
 #[derive(Clone)]
@@ -110,6 +117,24 @@ impl io::Write for SimStream {
         s.last_write_accepted = 0;
         let op = s.next_wr.take().unwrap_or(WrOp::Eagain);
         match op {
+            WrOp::Accept(n) if s.verify.is_some() => {
+                let k = n.min(buf.len());
+                let exp = s.verify.clone().unwrap();
+                let mut done = 0;
+                while done < k {
+                    let pos = s.verify_pos;
+                    let m = (k - done).min(exp.len() - pos);
+                    if s.verify_bad.is_none() && buf[done..done + m] != exp[pos..pos + m] {
+                        let d = buf[done..done + m].iter().zip(exp[pos..pos + m].iter()).position(|(a, b)| a != b).unwrap_or(0);
+                        s.verify_bad = Some(s.verify_total + d as u64);
+                    }
+                    s.verify_pos = (pos + m) % exp.len();
+                    s.verify_total += m as u64;
+                    done += m;
+                }
+                s.last_write_accepted = k;
+                Ok(k)
+            }
             WrOp::Accept(n) => {
                 let k = n.min(buf.len());
                 s.accepted.extend_from_slice(&buf[..k]);
